@@ -12,7 +12,7 @@ META = dict(
 )
 
 
-OPS = ["St204", "St304", "St404", "St999", "Msg", "SetXA1", "AddXA2", "DelXA", "CType", "Cookie",
+OPS = ["St204", "St304", "StKnown", "StUnreg", "Msg", "SetXA1", "AddXA2", "DelXA", "CType", "Cookie",
        "Close", "HandConnClose", "HandCL3", "TypedCLm1", "HandTE", "Error", "ResetBody", "BodyS", "BodyB",
        "AppendA", "RawR", "StrSExact", "StrSUnk", "StrBExact", "StrBUnk", "StrSShort", "StrSLong", "StrBLong",
        "SW", "SkipBody", "Trailer"]
@@ -48,5 +48,5 @@ def run(ctx):
                 "framing fields, close or trailers, or the request is HEAD")
     ctx.assumptions = ["31-op menu; all programs of length <= %d and the length-%d programs starting with %s" % (n, n + 1, first),
                        "programs of length <= 2 meet all 12 request kinds, longer ones %d seed-chosen kinds" % ctx.pick(2, 4),
-                       "contents: abc / 5000 bytes / rawbody / sw1+sw2 / errmsg; server with default buffer sizes; 4 stream reader flavours",
+                       "contents: abc / 5000 bytes / rawbody / sw1+sw2 / errmsg; server with default buffer sizes; 6 stream reader flavours (incl. data returned together with io.EOF, empty reads); StKnown/StUnreg are concretised per run to a seed-chosen registered / unregistered status code",
                        "declared-size mismatches are not combined with CompressHandler; trailers announced for a non-chunked message are not compared"]
